@@ -3,8 +3,10 @@ class reads the enemy king's cached square)."""
 from wa.mir import AnchorMissing, ShapeNotRecognised
 from wa.expr import Exprs, data_slice, show_expr, strip_refs
 from wa.cond import enum_value_on_trace
+from wa.itermodel import xbody
 
 ICC = "move_generation::is_check_cords"
+OPPOSITE = "board::PieceColor::opposite"
 PIECE_CTORS = {"board::Piece::rook": "rook", "board::Piece::queen": "queen", "board::Piece::bishop": "bishop",
                "board::Piece::knight": "knight", "board::Piece::pawn": "pawn"}
 KING_FIELDS = {"white_king_location": "White", "black_king_location": "Black"}
@@ -25,6 +27,16 @@ def _params(b):
     return board, color, sq
 
 
+def colour_on_trace(b, ex, bb, colour, colours):
+    """Possible values of the colour expression on entry to bb, from dominating tests on the colour
+    itself or on its opposite (`match c.opposite() { Black => .. }` says as much about c as
+    `match c { White => .. }`; `opposite` is the swap, R0.1)."""
+    poss = enum_value_on_trace(b, ex, bb, colour, colours)
+    opp = enum_value_on_trace(b, ex, bb, ("call", OPPOSITE, (colour,), None), colours)
+    swap = {"White": "Black", "Black": "White"}
+    return poss & {swap.get(c, c) for c in opp}
+
+
 def deciders(b, ex):
     """(loc, expr) of every expression that decides the result: switch conditions and
     non-constant values assigned to the return place."""
@@ -42,7 +54,7 @@ def deciders(b, ex):
 
 def r1_3(ctx):
     f = ctx.facts
-    b = f.body(ICC)
+    b = xbody(f, ICC)
     ctx.note_fn(ICC)
     ex = Exprs(b)
     board, color, sq = _params(b)
@@ -91,18 +103,22 @@ def r1_3(ctx):
         elif rv["k"] == "ref":
             places.append(rv["place"])
         for p in places:
-            if p["local"] != board:
+            # the place read is <board>.<king field>..., whatever local holds the board reference
+            # (the parameter itself or a copy of it handed to a helper)
+            k = next((i for i, e in enumerate(p["proj"]) if e["k"] == "field"), None)
+            if k is None or p["proj"][k]["name"] not in KING_FIELDS:
                 continue
-            fields = [e["name"] for e in p["proj"] if e["k"] == "field"]
-            if not fields or fields[0] not in KING_FIELDS:
+            base = strip_refs(ex.place({"local": p["local"], "proj": p["proj"][:k], "ty": None}, loc))
+            if base != ("arg", board):
                 continue
+            fname = p["proj"][k]["name"]
             nreads += 1
-            owner = KING_FIELDS[fields[0]]
-            poss = enum_value_on_trace(b, ex, loc[0], ("arg", color), colours)
+            owner = KING_FIELDS[fname]
+            poss = colour_on_trace(b, ex, loc[0], ("arg", color), colours)
             ok = poss == ({"White", "Black"} - {owner})
-            ctx.ob("is_check_cords:king-class:enemy-field:%s" % fields[0], ok, b.where(loc),
+            ctx.ob("is_check_cords:king-class:enemy-field:%s" % fname, ok, b.where(loc),
                    "reads %s's king square where the defender colour may be %s; it must be read only when the defender is the other colour" % (owner, sorted(poss)))
-    ctx.floor("king square reads", nreads, 2)
+    ctx.floor("king square reads", nreads, 1)
 
 
 # ---- C06: R6.1 is_check, R6.2 attack tables, R6.3 ray walk, R6.4 king adjacency (finite instantiation)
@@ -117,28 +133,38 @@ SQ_EQ = "<board::Square as std::cmp::PartialEq<board::Piece>>::eq"
 
 
 def r6_1(ctx):
-    """is_check(board, c) probes c's own cached king square with colour c."""
+    """is_check(board, c) probes c's own cached king square with colour c: decided on the body
+    specialised under the hypothesis colour == C (so a `match`, an `if c == White`, or a helper that
+    selects the square all reduce to the one call that is feasible for C)."""
+    from wa.cond import specialise
     f = ctx.facts
-    b = f.body(IS_CHECK)
+    b0 = xbody(f, IS_CHECK)
     ctx.note_fn(IS_CHECK)
-    ex = Exprs(b)
     colours = f.enum_variant_by_discr("board::PieceColor")
-    cp = [i for i in range(1, b.arg_count + 1) if b.local_ty(i) == "board::PieceColor"][0]
-    bp = [i for i in range(1, b.arg_count + 1) if b.local_ty(i) == "&board::BoardState"][0]
+    cp = [i for i in range(1, b0.arg_count + 1) if b0.local_ty(i) == "board::PieceColor"][0]
+    bp = [i for i in range(1, b0.arg_count + 1) if b0.local_ty(i) == "&board::BoardState"][0]
     seen = set()
-    for bb, t in b.iter_calls(callee=ICC):
-        args = ex.call_args(bb)
-        poss = enum_value_on_trace(b, ex, bb, ("arg", cp), colours)
-        ca = strip_refs(args[1])
-        sq = strip_refs(args[2])
-        cname = ca[2] if ca[0] == "agg" else (next(iter(poss)) if ca == ("arg", cp) and len(poss) == 1 else None)
-        ok = len(poss) == 1 and cname == next(iter(poss)) and sq[0] == "field" and sq[2] == "%s_king_location" % cname.lower() and strip_refs(sq[1]) == ("arg", bp) \
-            and strip_refs(args[0]) == ("arg", bp)
-        if ok:
+    for cname in sorted(colours.values()):
+        b, ex, dead = specialise(b0, {("arg", cp): ("eq", cname)}, {("arg", cp): colours})
+        calls = list(b.iter_calls(callee=ICC))
+        okall = bool(calls)
+        where = b.file
+        detail = []
+        for bb, t in calls:
+            args = ex.call_args(bb)
+            ca = strip_refs(args[1])
+            sq = strip_refs(args[2])
+            okc = ca == ("arg", cp) or (ca[0] == "agg" and ca[2] == cname)
+            oks = sq[0] == "field" and sq[2] == "%s_king_location" % cname.lower() and strip_refs(sq[1]) == ("arg", bp)
+            okb = strip_refs(args[0]) == ("arg", bp)
+            okall = okall and okc and oks and okb
+            where = b.where(b.term_loc(bb))
+            detail.append("is_check_cords(%s, %s, %s)" % (show_expr(strip_refs(args[0]), b), show_expr(ca, b), show_expr(sq, b)))
+        if okall:
             seen.add(cname)
-        ctx.ob("is_check:%s" % (sorted(poss)[0] if len(poss) == 1 else "?"), ok, b.where(b.term_loc(bb)),
-               "on the trace colour=%s: is_check_cords(board, %s, %s); must probe that colour's own king square" % (sorted(poss), show_expr(ca, b), show_expr(sq, b)))
-    ctx.ob("is_check:both-colours", seen == {"White", "Black"}, b.file, "colours handled: %s" % sorted(seen))
+        ctx.ob("is_check:%s" % cname, okall, where,
+               "on the trace colour=%s: %s; must probe that colour's own king square" % (cname, "; ".join(detail) or "no is_check_cords call"))
+    ctx.ob("is_check:both-colours", seen == {"White", "Black"}, b0.file, "colours handled: %s" % sorted(seen))
 
 
 def table_loops(b, ex):
@@ -161,23 +187,24 @@ def table_loops(b, ex):
 
 
 def _piece_tests(b, ex, blocks):
-    """[(bb, kind name, colour expr, square expr)] of `square == Piece::kind(colour)` tests in blocks."""
+    """[(bb, kind name, colour expr, square expr)] of `square == Piece::kind(colour)` comparisons made
+    in blocks (whether the result is branched on at once or first bound to a name)."""
     res = []
     for s in sorted(blocks):
-        if b.term(s)["k"] != "switch":
+        t = b.term(s)
+        if s not in b.reachable or t["k"] != "call" or callee_of(t) != SQ_EQ:
             continue
-        d = ex.switch_discr(s)
-        if d[0] == "call" and d[1] == SQ_EQ:
-            p = strip_refs(d[2][1])
-            if p[0] == "call" and p[1] in PIECE_CTORS:
-                res.append((s, PIECE_CTORS[p[1]], strip_refs(p[2][0]), strip_refs(d[2][0])))
+        args = ex.call_args(s)
+        p = strip_refs(args[1])
+        if p[0] == "call" and p[1] in PIECE_CTORS:
+            res.append((s, PIECE_CTORS[p[1]], strip_refs(p[2][0]), strip_refs(args[0])))
     return res
 
 
 def r6_2(ctx):
     """Per attack class: direction/offset table, attacker kinds, attacker colour, pawn rows."""
     f = ctx.facts
-    b = f.body(ICC)
+    b = xbody(f, ICC)
     ctx.note_fn(ICC)
     ex = Exprs(b)
     board, color, sq = _params(b)
@@ -232,7 +259,7 @@ def r6_2(ctx):
                     if kind != "whole":
                         continue
                     e = ex.rvalue(b.stmts(dloc[0])[dloc[1]]["rv"], dloc)
-                    poss = enum_value_on_trace(b, ex, dloc[0], ("arg", color), colours)
+                    poss = colour_on_trace(b, ex, dloc[0], ("arg", color), colours)
                     rdefs.append((poss, linear(e), dloc))
             okr = len(rdefs) == 2
             for poss, le, dloc in rdefs:
@@ -245,21 +272,168 @@ def r6_2(ctx):
             ctx.ob("is_check_cords:pawn:row#%d" % len(cols), okr, b.where(b.term_loc(s)),
                    "pawn attackers are looked for one row ahead of the defender (White: row-1, Black: row+1): %s" % [(sorted(p), l[1] if l else None) for p, l, _ in rdefs])
     ctx.ob("is_check_cords:pawn:both-diagonals", cols == {-1, 1}, b.file, "pawn attack columns relative to the square: %s" % sorted(cols))
+    # a hit answers `attacked`: from each comparison `square == Piece::kind(attacker)`, every path on
+    # which it is true returns true before the next table entry / class is looked at (so `any` is not
+    # `all`, `a || b` is not `a && b`, and a hit is not made conditional on something else)
+    from wa.symex import SymEx
+    from wa.pathsym import cond_truth
+    nhit = 0
+    seen_keys = set()
+    cls_of = {}
+    for nm, (h, t, kinds, tests) in found.items():
+        for s, k, c, sqe in tests:
+            cls_of[s] = nm
+    for s, k, c, sqe in _piece_tests(b, ex, allb):
+        k = "%s:%s" % (cls_of.get(s, "direct"), k)
+        hdrs = {h2 for h2, b2 in loops.items() if s in b2}
+        sx = SymEx(f)
+        try:
+            paths = sx.run(b, s, {}, stop=hdrs, fallback=lambda l, s=s: ex.local(l, (s, 0)))
+        except ShapeNotRecognised as e:
+            ctx.ob("is_check_cords:%s:hit-answers-true" % k, False, b.where(b.term_loc(s)), "cannot follow the comparison's result: %s" % e, reason="shape-not-recognised")
+            continue
+        used = 0
+        bad = 0
+        for p in paths:
+            me = next((ev[4] for ev in p.events if ev[0] == "call" and ev[1][1] == s and ev[2] == SQ_EQ), None)
+            for cnd in p.conds:
+                if me is not None and cnd[0] == me:
+                    used += 1
+                    if cond_truth(cnd) is True and not (p.end == "return" and p.ret == ("const", True)):
+                        bad += 1
+        nhit += 1
+        while "is_check_cords:%s:hit-answers-true" % k in seen_keys:
+            k += "'"
+        seen_keys.add("is_check_cords:%s:hit-answers-true" % k)
+        ctx.ob("is_check_cords:%s:hit-answers-true" % k, used > 0 and not bad, b.where(b.term_loc(s)),
+               "when the square equals the attacking %s the answer is `true` at once (paths deciding on it: %d, of which %d do not answer true)" % (k, used, bad))
+    ctx.floor("attacker comparisons followed to the answer", nhit, 4)
 
 
 from wa.linear import linear
+
+
+from wa.symex import summarise_loop, erase, elinear, mentions_sym
+from wa.pathsym import cond_truth
+
+
+def square_lin(e, board_arg):
+    """`board.board[r][c]` (through references / width casts) -> (affine r, affine c); else None."""
+    e = erase(e)
+    if e[0] == "index" and e[1][0] == "index":
+        base = e[1][1]
+        if base[0] == "field" and base[2] == "board" and base[1] == ("arg", board_arg):
+            lr, lc = elinear(e[1][2]), elinear(e[2])
+            if lr is not None and lc is not None:
+                return (lr, lc)
+    return None
+
+
+def _lin_of(terms, const=0):
+    return (frozenset((erase(t), c) for t, c in terms.items()), const)
+
+
+class RayWalk:
+    """Summary of a walking loop nested in a loop over a direction table, from one symbolic iteration
+    (wa/symex.summarise_loop).  The loop is a ray walk from `origin` when
+      * two carried variables R, C are advanced by the direction's components (dr, dc) exactly once on
+        every path that continues, and enter the loop as origin + (dr, dc)                  [step, init]
+      * every other carried variable the decisions use is the square at the current position:
+        it enters as board[R0][C0] and is re-loaded as board[R'][C'] when the loop continues  [invariant]
+    so that `cur(e)` can say whether a square-valued expression is 'the square at the walk position
+    at the start of this iteration', whichever of the two ways (carried variable / indexed load) the
+    source uses.  Nothing here depends on the loop's syntactic form (`while`, `loop` + `break` or
+    `return`, `+=` or `add_assign`, helper or closure)."""
+
+    def __init__(self, f, b, ex, h, item, h2, b2, board_arg, origin):
+        self.b, self.h2 = b, h2
+        self.carried, self.paths = summarise_loop(f, b, ex, h2, b2, stop={h})
+        self.cont = [p for p in self.paths if p.end == "stop" and p.end_bb == h2]
+        self.exits = [p for p in self.paths if not (p.end == "stop" and p.end_bb == h2)]
+        comp = [erase(("field", item, "0")), erase(("field", item, "1"))]
+        self.R = self.C = None
+        self.ok_step = bool(self.cont)
+        for l in sorted(self.carried):
+            forms = {elinear(p.env.get(l, ("sym", l))) for p in self.cont}
+            if len(forms) != 1:
+                continue
+            fm = next(iter(forms))
+            if fm == _lin_of({("sym", l): 1, comp[0]: 1}):
+                self.ok_step = self.ok_step and self.R is None
+                self.R = l
+            elif fm == _lin_of({("sym", l): 1, comp[1]: 1}):
+                self.ok_step = self.ok_step and self.C is None
+                self.C = l
+        self.ok_step = self.ok_step and self.R is not None and self.C is not None
+        rd = b.reaching()
+
+        def init_of(l):
+            ds = [(dloc, k) for dloc, k in rd.defs(l, (h2, 0)) if k != "borrow" and (k == "entry" or dloc[0] not in b2)]
+            if len(ds) != 1 or ds[0][1] != "whole":
+                return None
+            return ex._def_expr(l, ds[0][0])
+        self.ok_init = False
+        self.squares = set()
+        self.ok_inv = True
+        if self.ok_step:
+            iR, iC = init_of(self.R), init_of(self.C)
+            liR = elinear(iR) if iR is not None else None
+            liC = elinear(iC) if iC is not None else None
+            self.ok_init = liR == _lin_of({origin[0]: 1, comp[0]: 1}) and liC == _lin_of({origin[1]: 1, comp[1]: 1})
+            used = set()
+            for p in self.paths:
+                for c in p.conds:
+                    used |= {x[1] for x in subexprs(c[0]) if x[0] == "sym"}
+                for ev in p.events:
+                    if ev[0] == "call":
+                        for a in ev[3]:
+                            used |= {x[1] for x in subexprs(a) if x[0] == "sym"}
+            for l in sorted(used - {self.R, self.C}):
+                iX = init_of(l)
+                ok = iX is not None and square_lin(iX, board_arg) == (liR, liC) and liR is not None
+                for p in self.cont:
+                    ok = ok and square_lin(p.env.get(l, ("sym", l)), board_arg) == (elinear(p.env[self.R]), elinear(p.env[self.C]))
+                if ok:
+                    self.squares.add(l)
+                else:
+                    self.ok_inv = False
+        self.board_arg = board_arg
+
+    def cur(self, e):
+        ee = erase(e)
+        if ee[0] == "sym" and ee[1] in self.squares:
+            return True
+        return self.R is not None and square_lin(e, self.board_arg) == (_lin_of({("sym", self.R): 1}), _lin_of({("sym", self.C): 1}))
+
+    def cur_point(self, r, c):
+        return self.R is not None and elinear(r) == _lin_of({("sym", self.R): 1}) and elinear(c) == _lin_of({("sym", self.C): 1})
+
+    def walk_conds(self, p):
+        """Conditions of a path that speak about the walk state: [(what, truth)]; what is 'empty' for
+        is_empty(current square), else the expression."""
+        out = []
+        for c in p.conds:
+            d = c[0]
+            if not mentions_sym(d):
+                continue
+            if d[0] == "call" and d[1] == "board::Square::is_empty" and self.cur(d[2][0]):
+                out.append(("empty", cond_truth(c)))
+            else:
+                out.append((d, cond_truth(c)))
+        return out
 
 
 def r6_3(ctx):
     """Ray walk shape: each slider ray advances by the direction while the square just loaded is
     empty, and the square compared with the attackers is the one the walk stopped on."""
     f = ctx.facts
-    b = f.body(ICC)
+    b = xbody(f, ICC)
     ex = Exprs(b)
     board, color, sq = _params(b)
     tl = table_loops(b, ex)
     loops = b.loops()
     n = 0
+    origin = (erase(("field", ("arg", sq), "0")), erase(("field", ("arg", sq), "1")))
     for h, (body_, tab, item) in sorted(tl.items()):
         inner = [(h2, b2) for h2, b2 in loops.items() if b2 < body_]
         is_slider = tab in (chess.ROOK_DIRS, chess.BISHOP_DIRS)
@@ -268,12 +442,8 @@ def r6_3(ctx):
             ctx.ob("is_check_cords:offsets@%d:single-probe" % len(tab), not inner, b.where(b.term_loc(h)), "%d-offset table is probed once per offset (no walk)" % len(tab))
             tests = _piece_tests(b, ex, body_)
             for s, k, c, sqe in tests:
-                ok = False
-                if sqe[0] == "index" and sqe[1][0] == "index":
-                    lr, lc = linear(sqe[1][2]), linear(sqe[2])
-                    want_r = {("field", ("arg", sq), "0"): 1, ("deref", ("field", ("deref", item), "0")): 1}
-                    want_c = {("field", ("arg", sq), "1"): 1, ("deref", ("field", ("deref", item), "1")): 1}
-                    ok = lr is not None and lc is not None and lr[1] == 0 and lc[1] == 0 and _same_terms(lr[0], want_r) and _same_terms(lc[0], want_c)
+                sl = square_lin(sqe, board)
+                ok = sl == (_lin_of({origin[0]: 1, ("field", item, "0"): 1}), _lin_of({origin[1]: 1, ("field", item, "1"): 1}))
                 ctx.ob("is_check_cords:%s:probe-square" % k, ok, b.where(b.term_loc(s)), "probes board[square.0 + dr][square.1 + dc]: `%s`" % show_expr(sqe, b)[:110])
             continue
         n += 1
@@ -282,67 +452,30 @@ def r6_3(ctx):
             ctx.ob("is_check_cords:%s:ray-walk" % name, False, b.where(b.term_loc(h)), "expected one inner walking loop, found %d" % len(inner), reason="shape-not-recognised")
             continue
         h2, b2 = inner[0]
-        # loop condition: is_empty(square var)
-        cond = None
-        for x in b2:
-            if b.term(x)["k"] == "switch":
-                d = ex.switch_discr(x)
-                if d[0] == "call" and d[1] == "board::Square::is_empty":
-                    cond = (x, strip_refs(d[2][0]))
-        if cond is None or cond[1][0] != "var":
-            ctx.ob("is_check_cords:%s:ray-walk" % name, False, b.where(b.term_loc(h2)), "the walk does not continue on `square.is_empty()`", reason="rule-breach")
-            continue
-        sqv = cond[1][1]
-        t = b.term(cond[0])
-        cont = t["otherwise"]
-        ok_cont = cont in b2 and all(tg not in b2 for v, tg in t["cases"] if v == 0)
-        # in the loop: two add_assign on two locals with the direction components, then reload of square
-        steps = []
-        for x in b2:
-            tt = b.term(x)
-            if tt["k"] == "call" and (callee_of(tt) or "").endswith("AddAssign<&i8>>::add_assign"):
-                al = operand_alias(b, tt["args"][0])
-                comp = strip_refs(ex.call_args(x)[1])
-                steps.append((al[0] if al else None, comp))
-        comps = {_strip_cd(c) for _, c in steps}
-        want = {_strip_cd(("field", ("deref", item), "0")), _strip_cd(("field", ("deref", item), "1"))}
-        # reload
-        reloads = [(loc, k) for loc, k in b.reaching().all_sites(sqv) if loc[0] in b2]
-        ok_reload = False
-        rowl = coll = None
-        if len(reloads) == 1:
-            loc = reloads[0][0]
-            e = ex.rvalue(b.stmts(loc[0])[loc[1]]["rv"], loc)
-            if e[0] == "index" and e[1][0] == "index":
-                rowl, coll = _root(e[1][2]), _root(e[2])
-                stepped = {l for l, _ in steps}
-                after = all(b.node_dominates(x, loc[0]) for x in b2 if b.term(x)["k"] == "call" and (callee_of(b.term(x)) or "").endswith("add_assign"))
-                ok_reload = {rowl, coll} == stepped and after and strip_refs(e[1][1])[0] == "field" and strip_refs(e[1][1])[2] == "board"
-        # row stepped with component 0, col with component 1
-        ok_comp = False
-        if rowl is not None:
-            m = {l: c for l, c in steps}
-            ok_comp = _strip_cd(m.get(rowl) or ("x", "x")) == _strip_cd(("field", ("deref", item), "0")) and \
-                _strip_cd(m.get(coll) or ("x", "x")) == _strip_cd(("field", ("deref", item), "1"))
-        # initial position: square + direction
-        inits = [(loc, k) for loc, k in b.reaching().all_sites(sqv) if loc[0] in body_ and loc[0] not in b2]
-        ok_init = False
-        if len(inits) == 1:
-            loc = inits[0][0]
-            e = ex.rvalue(b.stmts(loc[0])[loc[1]]["rv"], loc)
-            if e[0] == "index" and e[1][0] == "index":
-                lr, lc = linear(e[1][2]), linear(e[2])
-                want_r = {("field", ("arg", sq), "0"): 1, ("field", ("deref", item), "0"): 1}
-                want_c = {("field", ("arg", sq), "1"): 1, ("field", ("deref", item), "1"): 1}
-                ok_init = (lr is not None and lc is not None and lr[1] == 0 and lc[1] == 0 and _same_terms(lr[0], want_r) and _same_terms(lc[0], want_c)) or \
-                    (_root(e[1][2]) == rowl and _root(e[2]) == coll and rowl is not None)
-        # the attackers are compared with that same variable
-        tests = _piece_tests(b, ex, body_ - b2)
-        ok_cmp = bool(tests) and all(sqe[0] == "var" and sqe[1] == sqv for _, _, _, sqe in tests)
-        ok = ok_cont and comps == want and len(steps) == 2 and ok_reload and ok_comp and ok_init and ok_cmp
+        rw = RayWalk(f, b, ex, h, item, h2, b2, board, origin)
+        # continue exactly on empty squares: every continuing path saw is_empty(current) == true and
+        # nothing else about the walk; every leaving path saw is_empty(current) == false first
+        ok_cont = bool(rw.cont) and bool(rw.exits)
+        for p in rw.cont:
+            ok_cont = ok_cont and rw.walk_conds(p) == [("empty", True)]
+        for p in rw.exits:
+            wc = rw.walk_conds(p)
+            ok_cont = ok_cont and bool(wc) and wc[0] == ("empty", False)
+        # the square compared with the attackers is the one the walk stopped on
+        ncmp = 0
+        ok_cmp = True
+        for p in rw.exits:
+            for ev in p.events:
+                if ev[0] == "call" and ev[2] == SQ_EQ:
+                    ncmp += 1
+                    ok_cmp = ok_cmp and rw.cur(ev[3][0])
+            for d, tr in rw.walk_conds(p)[1:]:
+                ok_cmp = ok_cmp and isinstance(d, tuple) and d[0] == "call" and d[1] == SQ_EQ
+        ok_cmp = ok_cmp and ncmp > 0
+        ok = ok_cont and rw.ok_step and rw.ok_init and rw.ok_inv and ok_cmp
         ctx.ob("is_check_cords:%s:ray-walk" % name, ok, b.where(b.term_loc(h2)),
-               "walk continues only on empty squares: %s; steps by (dr, dc) once each: %s; reloads board[row][col] after stepping: %s; row<-dr, col<-dc: %s; starts one step from the square: %s; compares the square it stopped on: %s" % (
-                   ok_cont, comps == want and len(steps) == 2, ok_reload, ok_comp, ok_init, ok_cmp))
+               "walk continues exactly on empty squares: %s; steps by (dr, dc) once per iteration, row<-dr, col<-dc: %s; starts one step from the square: %s; the square tested is the one at the walk position: %s; compares the square it stopped on: %s" % (
+                   ok_cont, rw.ok_step, rw.ok_init, rw.ok_inv, ok_cmp))
     ctx.floor("slider ray loops", n, 2)
 
 
@@ -363,11 +496,49 @@ def _root(e):
     return root_local(_strip_cd(e))
 
 
+def _king_answer(b, ex, env, start, kblocks):
+    """Answer of the king class for one concrete (king, square) pair: walk from the first king-class
+    decision; a return reached by king-class decisions alone is the class's answer, and running into
+    a decision of another class (one that the pair does not determine) means the king class did not
+    claim the square (it may stand first, with an early `return true`, or last)."""
+    from wa import interp
+    bb = start
+    path = []
+    for _ in range(400):
+        path.append(bb)
+        t = b.term(bb)
+        k = t["k"]
+        if k == "return":
+            return interp.path_return_value(b, ex, path, env)
+        if k in ("goto", "call", "assert", "drop"):
+            if t.get("target") is None:
+                raise Unknown(("diverges", bb))
+            bb = t["target"]
+            continue
+        if k == "switch":
+            try:
+                v = eval_expr(ex.switch_discr(bb), env)
+            except Unknown:
+                if bb in kblocks:
+                    raise
+                return False
+            if isinstance(v, bool):
+                v = int(v)
+            nxt = t["otherwise"]
+            for val, tg in t["cases"]:
+                if val == v:
+                    nxt = tg
+            bb = nxt
+            continue
+        raise Unknown(("terminator", k))
+    raise Unknown(("walk did not terminate",))
+
+
 def r6_4(ctx):
     """King class by finite instantiation: for every pair (enemy king square, probed square) on the
     board the king-class decision equals 'Chebyshev distance <= 1'."""
     f = ctx.facts
-    b = f.body(ICC)
+    b = xbody(f, ICC)
     ex = Exprs(b)
     board, color, sq = _params(b)
     ds = [(loc, e) for loc, e in deciders(b, ex) if any(x[0] == "field" and x[2] in KING_FIELDS for x in data_slice(ex, e))]
@@ -411,6 +582,7 @@ def r6_4(ctx):
         raise ShapeNotRecognised("king-class decision is not a function of (enemy king square, probed square): %s" % [show_expr(x, b) for x in roots])
     P, K = P[0], K[0]
     start = min((loc[0] for loc, _ in ds), key=lambda bb: len([x for x in b.normal if b.node_dominates(x, bb)]))
+    kblocks = {loc[0] for loc, _ in ds}
     bad = []
     n = 0
     for kr in range(2, 10):
@@ -421,8 +593,7 @@ def r6_4(ctx):
                         continue
                     env = {K: (kr, kc), P: (pr, pc)}
                     try:
-                        rb, path = walk(b, ex, env, start_bb=start)
-                        val = interp.path_return_value(b, ex, path, env)
+                        val = _king_answer(b, ex, env, start, kblocks)
                     except Unknown as e:
                         raise ShapeNotRecognised("cannot evaluate king-class decision: %r" % (e,))
                     want = max(abs(kr - pr), abs(kc - pc)) <= 1
@@ -475,17 +646,33 @@ def r2_5(ctx):
                 for loc, v in ws:
                     ctx.ob("%s:%s:value" % (site.name, field), strip_refs(v) == to, b.where(loc), "cached king square is written with the move's destination")
         elif len(mp) == 2:
-            # castling: constant destination per the oracle, and the king is moved from the parent's square to it
-            for field, ws in writes.items():
-                for loc, v in ws:
-                    v = strip_refs(v)
-                    ok = v[0] == "agg" and all(x[0] == "const" for x in v[3])
-                    dest = (v[3][0][1], v[3][1][1]) if ok else None
-                    colour = "White" if field.startswith("white") else "Black"
-                    okd = dest in [chess.sq(c[1]) for r, c in chess.CASTLING.items() if chess.RIGHT_COLOUR[r] == colour]
-                    n += 1
-                    ctx.ob("%s:%s:castling-destination" % (site.name, field), bool(okd), b.where(loc), "castling stores %s as the %s king's square" % (chess.name(dest) if dest and 2 <= dest[0] <= 9 and 2 <= dest[1] <= 9 else dest, colour))
-    ctx.floor("king-cache obligations", n, 6)
+            # castling: constant destination per the oracle, and the king is moved from the parent's square
+            # to it.  Decided per mover colour on the body specialised to `board.to_move == colour`, so
+            # that a destination built from a rank selected by `match board.to_move` is a constant.
+            from wa.cond import specialise
+            bps = [i for i in range(1, b.arg_count + 1) if b.local_ty(i) == "&board::BoardState"]
+            tm = ("field", ("deref", ("arg", bps[0])), "to_move") if len(bps) == 1 else None
+            for colour in ("White", "Black"):
+                if tm is not None:
+                    b2, ex2, _ref = specialise(b, {tm: ("eq", colour)}, {tm: colours})
+                else:
+                    b2, ex2 = b, ex
+                if site.bb not in b2.reachable:
+                    continue
+                for field, ws in sorted(writes.items()):
+                    for loc, v in ws:
+                        if loc[0] not in b2.reachable or not (loc[0] == site.bb or b2.reaches(site.bb, loc[0])):
+                            continue
+                        st = b.stmts(loc[0])[loc[1]]
+                        v = strip_refs(ex2.rvalue(st["rv"], loc))
+                        ok = v[0] == "agg" and all(x[0] == "const" for x in v[3])
+                        dest = (v[3][0][1], v[3][1][1]) if ok else None
+                        own = field.startswith(colour.lower())
+                        okd = own and dest in [chess.sq(c[1]) for r, c in chess.CASTLING.items() if chess.RIGHT_COLOUR[r] == colour]
+                        n += 1
+                        ctx.ob("%s:%s:castling-destination" % (site.name, field), bool(okd), b.where(loc),
+                               "castling by %s stores %s in %s" % (colour, chess.name(dest) if dest and 2 <= dest[0] <= 9 and 2 <= dest[1] <= 9 else dest, field))
+    ctx.floor("king-cache obligations", n, 4)
 
 
 def r6_5(ctx):
@@ -498,7 +685,7 @@ def r6_5(ctx):
     targets = [ICC, "move_generation::knight_moves", "move_generation::king_moves", "move_generation::pawn_moves", "move_generation::pawn_moves_en_passant"]
     n = nd = 0
     for fn in targets:
-        b = f.body(fn)
+        b = xbody(f, fn)
         ctx.note_fn(fn)
         ex = Exprs(b)
         pts = [i for i in range(1, b.arg_count + 1) if b.local_ty(i) == "board::Point"]
@@ -572,7 +759,7 @@ def r6_6(ctx):
     true) is reached only after the orthogonal, diagonal and knight loops and the pawn probe have
     all been passed."""
     f = ctx.facts
-    b = f.body(ICC)
+    b = xbody(f, ICC)
     ex = Exprs(b)
     board, color, sq = _params(b)
     tl = table_loops(b, ex)
